@@ -26,11 +26,15 @@ def main():
         return 2
     if a.replay:
         return mod.replay(a.replay)
+    from harness import tt
+    tt.get_pool(min(16, os.cpu_count() or 4))     # fork the workers while this process is small
     chk = framework.Check(pid, a.tier, a.seed)
     try:
         mod.run(chk)
     except Exception:
         chk.machinery.append(traceback.format_exc())
+    finally:
+        tt.close_pool()
     return chk.finish()
 
 
